@@ -121,13 +121,13 @@ func init() {
 // ---- in situ: every assignment made by Store / timeout handling / Migrate in lifecycle histories ----
 
 var specC15 = &lifeSpec{
-	Prop: "C15", Test: "TestC15InSitu",
+	Prop: "C15", Test: "TestC15InSitu", VaryWorld: true,
 	Oracles: func() []Oracle { return []Oracle{&C15Oracle{}} },
 	Tune: func(cfg *LifeCfg, s *Sim) {
 		s.TraceSteps = true
 	},
 	Nontrivial: func(s *Sim, os []Oracle) bool { return os[0].(*C15Oracle).Wrongable > 0 },
-	Weights:    map[string]int{"complete": 2, "advance": 4, "storeNew": 3, "storeHostile": 1, "seed": 1, "vstorage": 1, "migrate": 2, "resetNode": 2},
+	Weights:    map[string]int{"complete": 2, "advance": 4, "storeNew": 3, "storeHostile": 1, "seed": 1, "vstorage": 1, "migrate": 2, "resetNode": 2, "secondMigration": 2},
 }
 
 func init() { specC15.register() }
